@@ -286,6 +286,10 @@ def run(R):
             if pp.get("explained_by_capture") and codes & set(BORROWCK) and "captured-borrow-holder-consumed" in known:
                 R.known_hit(known["captured-borrow-holder-consumed"], o.get("corpus") or o["name"])
                 continue
+            kf = pxvlib.corpus_known(R, o)
+            if kf is not None:
+                R.known_hit(kf, o.get("corpus") or o["name"])
+                continue
             n_viol += 1
             if n_viol <= 3:
                 R.violation("accepted blueprint whose SDK does not compile: %s" % cc["err"][:300],
